@@ -66,11 +66,31 @@ pub fn exec_box(_ctx: &mut Ctx, t: &mut Toks) -> String {
     }
 }
 
+/// the same box, but its vertex cache was generated while it had another geometry and it was then
+/// mutated through the public fields / rotate_mut: results must depend on the current fields only
+fn stale(u: &Universal2DBox) -> Universal2DBox {
+    let mut b = Universal2DBox::new(u.xc + 3.0, u.yc - 2.0, Some(u.angle.unwrap_or(0.0) + 0.7), u.aspect * 1.5, u.height * 0.5);
+    b.gen_vertices();
+    b.xc = u.xc;
+    b.yc = u.yc;
+    b.aspect = u.aspect;
+    b.height = u.height;
+    match u.angle {
+        Some(a) => b.rotate_mut(a),
+        None => b.angle = None,
+    }
+    b
+}
+
 pub fn exec_geom(_ctx: &mut Ctx, t: &mut Toks) -> String {
     match t.next() {
-        "inter" => {
-            let a = ubox(t);
-            let b = ubox(t);
+        op @ ("inter" | "interstale") => {
+            let mut a = ubox(t);
+            let mut b = ubox(t);
+            if op == "interstale" {
+                a = stale(&a);
+                b = stale(&b);
+            }
             let (c1, s1) = cs(&a);
             let (c2, s2) = cs(&b);
             let tf = Universal2DBox::too_far(&a, &b);
